@@ -11,7 +11,7 @@ theorem uses_own {c : Cfg} {o : Orders} {s : State} {t i : Nat} (h : PcOK c o s 
     s.own i = .held t := by
   unfold PcOK at h
   cases hp : s.pc t <;> rw [hp] at h hu <;> simp [Pc.uses] at hu <;> subst hu
-  · exact h
+  · exact h.1
   · exact h.1
   · exact h.1
   · exact h.1
